@@ -2,11 +2,11 @@ package props
 
 import (
 	"bytes"
-	"strconv"
 	"crypto/cipher"
 	"encoding/json"
 	"fmt"
 	"sort"
+	"strconv"
 	"strings"
 	"time"
 
@@ -61,7 +61,7 @@ type c17Script struct {
 
 type c17 struct{}
 
-func init() { core.Register(c17{}) }
+func init()            { core.Register(c17{}) }
 func (c17) ID() string { return "C17" }
 
 var c17Kinds = []string{"Seal", "Open", "Encrypt", "Decrypt", "NewCipher", "NewGCM", "SignHashed", "VerifyHashed", "Verify", "DerivePublic", "GenerateKey", "SM3", "CheckOnCurve"}
